@@ -154,6 +154,14 @@ def _def_route_src():
     return gen_def_route.generate(os.path.join(core.REPO, 'src', 'kyupy', 'def_file.py'))[0]
 
 
+@register('DefCallbacksSrc')
+def _def_callbacks_src():
+    import os
+    from translate import gen_def_callbacks
+    from vcheck import core
+    return gen_def_callbacks.generate(os.path.join(core.REPO, 'src', 'kyupy', 'def_file.py'))
+
+
 @register('StilMapsSrc')
 def _stil_maps_src():
     import os
